@@ -277,6 +277,8 @@ def handle (line : String) : String :=
         s!"{b.1} {b.2} {bits}"
     | _, _ => "bad-op"
   | "mpart" :: _ => "-"
+  | "e2e" :: _ => "-"
+  | "sq" :: _ => "-"
   | "part" :: _ => "-"
   | "partx" :: _ => "-"
   | "sum" :: _ => "-"
